@@ -231,6 +231,46 @@ impl DbIndex {
     }
 }
 
+#[cfg(feature = "verif_hooks")]
+impl DbIndex {
+    /// Verification hook: structural size (number of lines of the pretty
+    /// `Debug` rendering, i.e. one per entry/field) of every index, plus the
+    /// entry counts of the `Vfs` maps. Read-only.
+    pub fn verif_census(&self) -> Vec<(&'static str, usize)> {
+        use std::fmt::Write;
+        struct LineCounter(usize);
+        impl Write for LineCounter {
+            fn write_str(&mut self, s: &str) -> std::fmt::Result {
+                self.0 += s.bytes().filter(|b| *b == b'\n').count();
+                Ok(())
+            }
+        }
+        fn lines<T: std::fmt::Debug>(value: &T) -> usize {
+            let mut counter = LineCounter(0);
+            let _ = write!(counter, "{:#?}", value);
+            counter.0
+        }
+        let mut census = vec![
+            ("decl", lines(&self.decl_index)),
+            ("references", lines(&self.references_index)),
+            ("types", lines(&self.types_index)),
+            ("modules", lines(&self.modules_index)),
+            ("members", lines(&self.members_index)),
+            ("property", lines(&self.property_index)),
+            ("signature", lines(&self.signature_index)),
+            ("diagnostic", lines(&self.diagnostic_index)),
+            ("operator", lines(&self.operator_index)),
+            ("flow", lines(&self.flow_index)),
+            ("file_dependencies", lines(&self.file_dependencies_index)),
+            ("metatable", lines(&self.metatable_index)),
+            ("global", lines(&self.global_index)),
+            ("json_schema", lines(&self.json_schema_index)),
+        ];
+        census.extend(self.vfs.verif_census());
+        census
+    }
+}
+
 impl LuaIndex for DbIndex {
     fn remove(&mut self, file_id: FileId) {
         self.decl_index.remove(file_id);
